@@ -703,6 +703,24 @@ def check_C11(A: Analysis, tier):
                                     ra.fail(Q("_find_object"), "sysmeta_path", f"sysmeta path {c!r} is not the default-namespace document address")
     rules.append(ra)
 
+    rg = Rule("C11", "C11.g", "with a relative store path (an accepted configuration) every metadata primitive still has a candidate "
+              "at metadata/shard(H(pid))/... (shared with C15.a)", floor=3)
+    for e in ("store_metadata", "retrieve_metadata", "delete_metadata"):
+        it = A.run(Q(e), "th", tagk="relative-root", relative_root=True)
+        rg.inst(f"{e} (relative store path): {len(it.events)} primitive events")
+        for ev in it.events:
+            if ev.kind not in MUT + ("READ",):
+                continue
+            for i, cs in enumerate(ev.classes):
+                if ev.prim.startswith("file.") and i > 0 or not cs:
+                    continue
+                rg.ob()
+                if all(base_class(c).cls in ("UNKNOWN", "RELATIVE", "BOGUS", "FALLBACK", "RAWID") for c in cs):
+                    rg.fail(site_func(ev), site_text(ev), f"with a relative store path this {ev.kind} addresses no metadata document "
+                            f"({sorted(repr(c) for c in cs)[:2]}): the full path is joined onto the metadata directory again and the document is "
+                            "not found (a delete then silently does nothing)", site_loc(A, ev))
+    rules.append(rg)
+
     rb = Rule("C11", "C11.b", "an omitted format means exactly the configured default namespace and a given format "
               "means exactly that format, at every site", floor=5)
     for e in ("store_metadata", "retrieve_metadata", "delete_metadata"):
@@ -896,6 +914,22 @@ def check_C15(A: Analysis, tier):
                     ra.ob()
                     ra.fail(site_func(ev), site_text(ev), f"{ev.kind} on a path the analysis cannot relate to the README layout: {showv(ev.paths[i])[:120]}",
                             site_loc(A, ev))
+    # the same with a *relative* store path (a configuration the API accepts): every primitive must
+    # still have a candidate at a README address (the look-up helpers' "as given" fall-back is what
+    # keeps callers that hand them a full path working)
+    for e in PUBLIC_API:
+        it = A.run(Q(e), "th", tagk="relative-root", relative_root=True)
+        for ev in it.events:
+            if ev.kind not in MUT + ("READ",):
+                continue
+            for i, cs in enumerate(ev.classes):
+                if ev.prim.startswith("file.") and i > 0 or not cs:
+                    continue
+                ra.ob()
+                if all(base_class(c).cls in ("UNKNOWN", "RELATIVE", "BOGUS", "FALLBACK", "RAWID") for c in cs):
+                    ra.fail(site_func(ev), site_text(ev), f"with a relative store path this {ev.kind} has no candidate at a README address "
+                            f"({sorted(repr(c) for c in cs)[:2]}): a full path handed to a look-up helper is joined onto the entity directory again "
+                            "(prefix doubled) and the file is not found", site_loc(A, ev), {"entry": e, "configuration": "relative store_path"})
     ch = A.p.func(Q("_computehash"))
     news = [c for c in ast.walk(ch.node) if isinstance(c, ast.Call) and norm(c.func) == "hashlib.new"]
     ra.ob()
